@@ -21,6 +21,7 @@ import warnings
 import core  # noqa: F401
 from rdflib import BNode, ConjunctiveGraph, Dataset, Graph, Literal, URIRef
 from rdflib.graph import DATASET_DEFAULT_GRAPH_ID
+from rdflib.paths import Path
 from rdflib.plugins.stores.memory import Memory
 
 warnings.filterwarnings("ignore", category=DeprecationWarning)
@@ -33,7 +34,7 @@ DRIVER = "drv_c02"
 CASES = {"quick": 3000, "thorough": 60000, "search": 20000}
 RULE = ("random scripts (3-12 mutating calls quick / 3-16 thorough, each followed by an observation block and 2-5 probes) over one Memory "
         "store seen through a Dataset (default_union on/off), a ConjunctiveGraph and independent Graph(store, name) "
-        "views; graph names: IRI, blank node with the same label, IRI, blank node, one never created, one created but "
+        "views, reads including triples_choices (each list position) and property-path quad patterns (p/q, p|q, ^p, p*); graph names: IRI, blank node with the same label, IRI, blank node, one never created, one created but "
         "empty, the two default graphs; non-trivial = at some point two graphs held a common triple or a restricted "
         "query hit an empty/unknown graph while another graph matched, and at least one removal happened; "
         "distinct = distinct scripts")
@@ -141,6 +142,53 @@ def _gkey(g):
 
 def _fmt_t(ts):
     return " ".join(",".join(map(str, t)) for t in sorted(ts))
+
+
+# ------------------------------------------------------------------ property paths
+
+
+class _ProbePath(Path):
+    """A path that records the graph it is evaluated against and delegates to a real path."""
+
+    def __init__(self, inner, log):
+        self.inner, self.log = inner, log
+
+    def eval(self, graph, subj=None, obj=None):
+        self.log.append(graph)
+        return self.inner.eval(graph, subj, obj)
+
+    def n3(self, namespace_manager=None):
+        return self.inner.n3(namespace_manager)
+
+    def __repr__(self):
+        return "Probe(%r)" % (self.inner,)
+
+
+def _mkpath(kind):
+    p, q = PRED[10], PRED[11]
+    return {"seq": p / q, "alt": p | q, "inv": ~p, "star": p * "*"}[kind]
+
+
+def _path_pairs(kind, triples, s, o):
+    """The relation the path denotes over a plain set of (term) triples, restricted to bound ends.
+    seq / alt / inv by relational algebra; star through rdflib's evaluator on a scratch plain Graph
+    (Graph.triples, not the ConjunctiveGraph code under test)."""
+    p, q = PRED[10], PRED[11]
+    if kind == "seq":
+        rel = {(a, d) for (a, x, b) in triples if x == p for (c, y, d) in triples if y == q and c == b}
+    elif kind == "alt":
+        rel = {(a, b) for (a, x, b) in triples if x in (p, q)}
+    elif kind == "inv":
+        rel = {(b, a) for (a, x, b) in triples if x == p}
+    else:
+        g = Graph()
+        for t in triples:
+            g.add(t)
+        return {(a, b) for a, _p, b in g.triples((s, _mkpath(kind), o))}
+    return {(a, b) for (a, b) in rel if (s is None or a == s) and (o is None or b == o)}
+
+
+NODE = {**SUBJ, **OBJ}
 
 
 # ------------------------------------------------------------------ running the implementation
@@ -488,6 +536,119 @@ def run_impl(case):
                 if res != len(orc.g(gk)):
                     bad("len", k, f"len(view {gk}) = {res}, the mapping gives {len(orc.g(gk))}")
                 out = str(res)
+            elif op in ("choices", "vchoices"):
+                if op == "choices":
+                    top, pos, lw, x, y, c = w[1], w[2], w[3], _p(w[4]), _p(w[5]), _garg(w[6])
+                else:
+                    gk, pos, lw, x, y = int(w[1]), w[2], w[3], _p(w[4]), _p(w[5])
+                lst = [] if lw == "e" else [int(v) for v in lw.split(",")]
+                tl = [im.term(v) for v in lst]
+                if k % 2:
+                    tl = tuple(tl)
+                arg = {"s": (tl, im.term(x), im.term(y)), "p": (im.term(x), tl, im.term(y)),
+                       "o": (im.term(x), im.term(y), tl)}[pos]
+                if op == "choices":
+                    cobj = im.gobj(c, top)
+                    res = [im.ids(t) for t in (im.top(top).triples_choices(arg, context=cobj) if cobj is not None or k % 3
+                                               else im.top(top).triples_choices(arg))]
+                    foreign_effect(c)
+                    e = _gkey(c)
+                else:
+                    res = [im.ids(t) for t in im.view(gk).triples_choices(arg)]
+                    e = gk
+                i = "spo".index(pos)
+                rest = [x, y]
+                rest.insert(i, None)
+
+                def cm(t):
+                    return (not lst or t[i] in lst) and _match(tuple(rest), t)
+                out = _fmt_t(res)
+                if len(set(lst)) == len(lst) and len(res) != len(set(res)):
+                    bad("dup", k, "a triple is yielded twice")
+                if op == "vchoices":
+                    want = {t for t in orc.g(e) if cm(t)}
+                    if set(res) != want:
+                        bad("view", k, f"triples_choices through the view of graph {e}: {sorted(set(res))}, mapping gives {sorted(want)}")
+                elif e is None:
+                    want = {t for t in (orc.union() if im.du[top] else orc.g(dflt(top))) if cm(t)}
+                    if set(res) != want:
+                        bad("union", k, f"triples_choices without graph (default_union={im.du[top]}) returned {sorted(set(res))}, "
+                                        f"the mapping gives {sorted(want)}")
+                    bump("choices_nograph")
+                else:
+                    want = {t for t in orc.g(e) if cm(t)}
+                    if not orc.g(e):
+                        bump("choices_empty_or_unknown")
+                        if any(cm(t) for t in orc.union()):
+                            flags["fallback_probe"] = True
+                        if res:
+                            bad("fallback", k, f"graph {e} is empty/unknown but triples_choices restricted to it returned {sorted(set(res))}")
+                    elif set(res) != want and not (e == dflt(top) and im.du[top]
+                                                   and set(res) == {t for t in orc.union() if cm(t)}):
+                        # (for the default graph under default_union either reading - the graph itself, as coded,
+                        #  or the merged view, as `triples` does - describes the mapping)
+                        bad("restricted", k, f"triples_choices in graph {e}: returned {sorted(set(res))}, the mapping gives {sorted(want)}")
+                    else:
+                        bump("choices_nonempty_graph")
+            elif op in ("path", "pathin", "vpath"):
+                log = []
+                if op == "vpath":
+                    gk, kind, ps, po = int(w[1]), w[2], _p(w[3]), _p(w[4])
+                    top = None
+                else:
+                    top, kind, ps, po, g = w[1], w[2], _p(w[3]), _p(w[4]), _garg(w[5])
+                    c = _garg(w[6]) if op == "path" else ("-",)
+                pp = _ProbePath(_mkpath(kind), log)
+                ts, to = (None if ps is None else NODE[ps]), (None if po is None else NODE[po])
+                if op == "vpath":
+                    res = {(a, b) for a, _x, b in im.view(gk).triples((ts, pp, to))}
+                    e = gk
+                elif op == "path":
+                    cobj = im.gobj(c, top)
+                    pat = (ts, pp, to) if g[0] == "-" else (ts, pp, to, im.gobj(g, top))
+                    res = {(a, b) for a, _x, b in im.top(top).triples(pat, context=cobj)}
+                    foreign_effect(g)
+                    foreign_effect(c)
+                    e = _gkey(c) if _gkey(c) is not None else _gkey(g)
+                else:
+                    pat = (ts, pp, to) if g[0] == "-" else (ts, pp, to, im.gobj(g, top))
+                    res = pat in im.top(top)
+                    foreign_effect(g)
+                    e = _gkey(g)
+                # obs: the graph the path was evaluated against
+                if not log:
+                    out = "none"
+                else:
+                    gr = log[0]
+                    if top is not None and gr is im.top(top):
+                        out = "*" if im.du[top] else str(dflt(top))
+                    else:
+                        out = str(im.gid(gr))
+                    if any(x is not gr and not (isinstance(x, Graph) and isinstance(gr, Graph) and x.identifier == gr.identifier
+                                                 and type(x) is type(gr)) for x in log):
+                        out += " (and others)"
+                # oracle: the relation over the graph the query names
+                if top is not None and (e is None or (e == dflt(top) and im.du[top])):
+                    src = orc.union() if im.du[top] else orc.g(dflt(top))
+                    tag = "union"
+                else:
+                    src = orc.g(e)
+                    tag = "path"
+                want = _path_pairs(kind, {im.triple(t) for t in src}, ts, to)
+                elsewhere = _path_pairs(kind, {im.triple(t) for t in orc.union()}, ts, to)
+                got = res if op != "pathin" else None
+                if tag == "path" and not want and elsewhere:
+                    flags["fallback_probe"] = True
+                    bump("path_probe_absent_here_present_elsewhere")
+                if op == "pathin":
+                    if res != bool(want):
+                        bad("fallback" if (tag == "path" and not orc.g(e)) else tag, k,
+                            f"membership of the path pattern in graph {e} is {res}, the graph's relation says {bool(want)}")
+                elif got != want:
+                    bad("fallback" if (tag == "path" and not orc.g(e) and got) else tag, k,
+                        f"path {kind} restricted to graph {e} returned {len(got)} pairs {sorted(map(str, got))[:3]}, "
+                        f"the graph's own relation has {len(want)} {sorted(map(str, want))[:3]}")
+                bump("path_nonempty" if want else "path_empty")
             elif op == "sctx":
                 out = " ".join(map(str, sorted(im.gid(g) for g in im.store.contexts())))
             else:
@@ -540,7 +701,9 @@ def _w(x):
     return "*" if x is None else str(x)
 
 
-def _rtriple(rng):
+def _rtriple(rng, chainy=False):
+    if chainy:   # objects that are subjects too, so that p/q, p* have something to follow
+        return (rng.choice([1, 2, 3]), rng.choice([10, 11]), rng.choice([23, 25, 23, 25, 20]))
     return (rng.choice([1, 1, 2, 3]), rng.choice([10, 10, 11]), rng.choice([20, 20, 21, 22, 23, 24, 25][: rng.choice([2, 3, 7])]))
 
 
@@ -553,6 +716,7 @@ def gen_case(rng, tier, i):
     du_d, du_c = rng.random() < 0.5, rng.random() < 0.75
     mode = rng.choice(["d", "d", "d", "c", "both"])
     foreign = rng.random() < 0.2
+    chainy = rng.random() < 0.4
     tops = {"d": ["d"], "c": ["c"], "both": ["d", "c"]}[mode]
     lines = [f"reset {int(du_d)} {int(du_c)}"]
     spec = _Oracle()     # steers the generator only
@@ -560,14 +724,14 @@ def gen_case(rng, tier, i):
     def garg(k, allow_plain=False):
         r = rng.random()
         if foreign and r < 0.35:
-            ts = [_rtriple(rng) for _ in range(rng.randint(0, 2))]
+            ts = [_rtriple(rng, chainy) for _ in range(rng.randint(0, 2))]
             spec.merge(k, ts)
             return f"f{k}:" + ";".join(".".join(map(str, t)) for t in ts)
         return f"i{k}" if r < 0.65 else f"v{k}"
 
     def known_triple():
         u = sorted(spec.union())
-        return rng.choice(u) if u and rng.random() < 0.75 else _rtriple(rng)
+        return rng.choice(u) if u and rng.random() < (0.6 if chainy else 0.75) else _rtriple(rng, chainy)
 
     def gkey():
         return rng.choice(NAMED + NAMED + [D_DEF, C_DEF])
@@ -593,6 +757,40 @@ def gen_case(rng, tier, i):
                 k = rng.choice(NAMED + [UNKNOWN, EMPTY, UNKNOWN, EMPTY, D_DEF, C_DEF])
             r = rng.random()
             ps = " ".join(_w(x) for x in pat)
+            if rng.random() < 0.2:      # triples_choices
+                pos = rng.choice("spo")
+                i = "spo".index(pos)
+                pool = {"s": [1, 2, 3], "p": [10, 11], "o": [20, 21, 22, 23, 24, 25]}[pos]
+                r3 = rng.random()
+                if r3 < 0.12:
+                    lw = "e"
+                else:
+                    lst = sorted(set([t[i]] + rng.sample(pool, rng.randint(0, 2)))) if r3 < 0.8 else rng.sample(pool, rng.randint(1, 2))
+                    if r3 > 0.95:
+                        lst = lst + lst[:1]
+                    lw = ",".join(map(str, lst))
+                rest = [_w(x) for j, x in enumerate(pat) if j != i]
+                if rng.random() < 0.85:
+                    out.append(f"choices {top} {pos} {lw} {rest[0]} {rest[1]} {garg(k) if rng.random() < 0.8 else rng.choice(['-', 'N'])}")
+                else:
+                    out.append(f"vchoices {k} {pos} {lw} {rest[0]} {rest[1]}")
+                continue
+            if rng.random() < (0.3 if chainy else 0.08):      # property-path patterns
+                kind = rng.choice(["seq", "seq", "alt", "inv", "star"])
+                a = _w(t[0]) if rng.random() < 0.4 else "*"
+                b = _w(rng.choice([1, 2, 3, 23, 25, t[2]])) if rng.random() < 0.25 else "*"
+                r3 = rng.random()
+                if r3 < 0.4:
+                    out.append(f"path {top} {kind} {a} {b} {garg(k)} -")
+                elif r3 < 0.6:
+                    out.append(f"path {top} {kind} {a} {b} - {garg(k)}")
+                elif r3 < 0.7:
+                    out.append(f"path {top} {kind} {a} {b} {rng.choice(['-', 'N', garg(gkey())])} {rng.choice(['-', 'N', garg(k)])}")
+                elif r3 < 0.9:
+                    out.append(f"pathin {top} {kind} {a} {b} {garg(k) if rng.random() < 0.85 else '-'}")
+                else:
+                    out.append(f"vpath {k} {kind} {a} {b}")
+                continue
             if r < 0.3:
                 out.append(f"triples {top} {ps} - {garg(k)}")
             elif r < 0.4:
@@ -684,7 +882,8 @@ def gen_case(rng, tier, i):
     return {"cgid": rng.choice(["iri", "bnode"]), "lines": lines}
 
 
-READS = ("sctx", "quads", "graphs", "len", "vtriples", "triples", "contains", "graphsof", "vcontains", "vlen")
+READS = ("sctx", "quads", "graphs", "len", "vtriples", "triples", "contains", "graphsof", "vcontains", "vlen",
+         "choices", "vchoices", "path", "pathin", "vpath")
 
 
 def shrink(case):
